@@ -30,7 +30,7 @@ def gen_case(st, tier, env):
     k = st.knobs
     kind = k.choice(["generate_rankings", "generate_rankings", "markov_dataset", "markov_dataset",
                      "uniform_permutations", "uniform_dataset"])
-    n = k.randint(1, 8)
+    n = k.randint(1, 8) if tier == "quick" or k.random() < 0.8 else k.randint(9, 14)
     m = k.randint(1, 5)
     steps = k.choice([0, 1, 2, 5, 20, 200, 10 * n, 3 * n])
     complete = k.random() < 0.5
